@@ -94,7 +94,9 @@ type callBridge struct {
 	VarFlag ssa.Value // the variadic flag (bool)
 	CtxFlag ssa.Value // the context flag call (bool)
 	Conv    *ssa.Call // per-argument conversion call
-	Expand  *ssa.Call // spread expansion call
+	Expand  *ssa.Call // spread expansion call (or, written out in the handler, the element read of its loop)
+	ExpandInline  bool
+	ExpandSubject ssa.Value // what is expanded
 	ArgsLen []ssa.Value
 }
 
@@ -146,6 +148,52 @@ func c11Bridge(c *Ctx, h *ssa.Function, d *Dispatcher) *callBridge {
 			br.Expand = call
 		}
 	})
+	if br.Expand != nil && len(br.Expand.Call.Args) > 0 {
+		br.ExpandSubject = br.Expand.Call.Args[0]
+	}
+	// the same parts written out in the handler itself
+	if br.CtxFlag == nil && br.FunType != nil {
+		instrs(h, func(b *ssa.BasicBlock, i int, in ssa.Instruction) {
+			bo, ok := in.(*ssa.BinOp)
+			if !ok || bo.Op != token.EQL {
+				return
+			}
+			for _, pr := range [][2]ssa.Value{{bo.X, bo.Y}, {bo.Y, bo.X}} {
+				l, okl := pr[0].(*ssa.Call)
+				r, okr := pr[1].(*ssa.Call)
+				if !okl || !okr || !l.Call.IsInvoke() || l.Call.Method.Name() != "In" || l.Call.Value != br.FunType {
+					continue
+				}
+				if n, ok := constIntArg(l.Call.Args[0]); !ok || n != 0 {
+					continue
+				}
+				if r.Call.IsInvoke() && r.Call.Method.Name() == "Elem" {
+					br.CtxFlag = bo
+				}
+			}
+		})
+	}
+	if br.Expand == nil {
+		// a loop reading the elements of reflect.ValueOf(x) one by one
+		for _, l := range naturalLoops(h) {
+			for b := range l.Body {
+				for _, in := range b.Instrs {
+					call, ok := in.(*ssa.Call)
+					if !ok || calleeOf(call) == nil || calleeOf(call).String() != "(reflect.Value).Index" {
+						continue
+					}
+					for _, rt := range plainOrigins.Roots(call.Call.Args[0]) {
+						if vc, ok := rt.V.(*ssa.Call); ok && rt.Kind == "call" && rt.Fn != nil && rt.Fn.String() == "reflect.ValueOf" {
+							if br.Call != nil && vc == br.Call {
+								continue
+							}
+							br.Expand, br.ExpandInline, br.ExpandSubject = call, true, stripIface(vc.Call.Args[0])
+						}
+					}
+				}
+			}
+		}
+	}
 	for _, part := range []ssa.Value{br.VarFlag, br.CtxFlag, br.Conv, br.Expand} {
 		if call, ok := part.(*ssa.Call); ok && call != nil {
 			c.P.touch(calleeOf(call))
@@ -249,6 +297,31 @@ func c11SingleCall(c *Ctx, br *callBridge) {
 		name string
 		call *ssa.Call
 	}{{"conversion failure", br.Conv}, {"spread expansion failure", br.Expand}} {
+		if spec.call == br.Expand && br.ExpandInline {
+			// written out in the handler: a test of the kind of the expanded value whose failing side returns an error
+			okKind := false
+			instrs(h, func(b *ssa.BasicBlock, i int, in ssa.Instruction) {
+				iff, isIf := in.(*ssa.If)
+				if !isIf {
+					return
+				}
+				bo, isB := iff.Cond.(*ssa.BinOp)
+				if !isB || (bo.Op != token.NEQ && bo.Op != token.EQL) {
+					return
+				}
+				kc, isC := bo.X.(*ssa.Call)
+				if !isC || !kc.Call.IsInvoke() || kc.Call.Method.Name() != "Kind" {
+					return
+				}
+				for k := range b.Succs {
+					if c.rejects(b, k, nil, br.Call) && instrDominates(in, br.Expand) {
+						okKind = true
+					}
+				}
+			})
+			c.R.Check(rule, "returns-error:"+spec.name, c.P.InstrPos(spec.call), okKind, "spreading a value that is not an array must return an error (before the host function is called)")
+			continue
+		}
 		c.R.Check(rule, "returns-error:"+spec.name, c.P.InstrPos(spec.call), c.errCheckedTuple(h, spec.call, 1) || c.errorEdgeReturns(spec.call, 1), "a "+spec.name+" must return an error (before the host function is called)")
 	}
 	c.R.Floor(rule, 6)
@@ -388,7 +461,7 @@ func c11Arity(c *Ctx, br *callBridge, rule string) {
 	}
 	c.R.Check(rule, "spread-only-with-token", c.P.InstrPos(br.Expand), !reach, "the array expansion must happen only when the call was written with `...`")
 	lastOK := false
-	if u, ok := br.Expand.Call.Args[0].(*ssa.UnOp); ok {
+	if u, ok := br.ExpandSubject.(*ssa.UnOp); ok {
 		if ia, ok := u.X.(*ssa.IndexAddr); ok {
 			if bo, ok := ia.Index.(*ssa.BinOp); ok && bo.Op == token.SUB {
 				if n, ok := constIntArg(bo.Y); ok && n == 1 {
@@ -586,7 +659,10 @@ func c11Context(c *Ctx, br *callBridge) {
 		c.R.Check(rule, fmt.Sprintf("declares-context=%v", has), c.P.Pos(h.Pos()), injected == has, fmt.Sprintf("with a leading context.Context parameter=%v the caller's context must be prepended=%v; found prepended=%v", has, has, injected))
 	}
 	// the flag function: In(0) == TypeOf((*context.Context)(nil)).Elem(), guarded by NumIn() > 0
-	g := calleeOf(br.CtxFlag.(*ssa.Call))
+	g := h
+	if fc, isCall := br.CtxFlag.(*ssa.Call); isCall {
+		g = calleeOf(fc)
+	}
 	cmpOK, guardOK := false, false
 	instrs(g, func(b *ssa.BasicBlock, i int, in ssa.Instruction) {
 		bo, ok := in.(*ssa.BinOp)
@@ -722,30 +798,38 @@ func c11TargetType(c *Ctx, br *callBridge) {
 
 func (c *Ctx) isContextShift(v ssa.Value, br *callBridge) bool {
 	phi, ok := v.(*ssa.Phi)
-	if !ok || len(phi.Edges) != 2 {
+	if !ok || len(phi.Edges) < 2 {
 		return false
 	}
-	var vals []int64
-	for _, e := range phi.Edges {
+	// 1 exactly on the edges that come from under the context flag's true side, 0 on the others
+	var flagIf *ssa.If
+	instrs(br.H, func(b *ssa.BasicBlock, i int, in ssa.Instruction) {
+		if iff, ok := in.(*ssa.If); ok && iff.Cond == br.CtxFlag {
+			flagIf = iff
+		}
+	})
+	if flagIf == nil {
+		return false
+	}
+	t := flagIf.Block().Succs[0]
+	ones, zeros := 0, 0
+	for i, e := range phi.Edges {
 		n, ok := constIntArg(e)
-		if !ok {
+		if !ok || (n != 0 && n != 1) {
 			return false
 		}
-		vals = append(vals, n)
-	}
-	sort.Slice(vals, func(i, j int) bool { return vals[i] < vals[j] })
-	if vals[0] != 0 || vals[1] != 1 {
-		return false
-	}
-	// controlled by the context flag
-	for _, p := range phi.Block().Preds {
-		for q := p; q != nil; q = q.Idom() {
-			if iff, ok := q.Instrs[len(q.Instrs)-1].(*ssa.If); ok && iff.Cond == br.CtxFlag {
-				return true
-			}
+		pred := phi.Block().Preds[i]
+		under := len(t.Preds) == 1 && (pred == t || t.Dominates(pred))
+		switch {
+		case n == 1 && under:
+			ones++
+		case n == 0 && !under:
+			zeros++
+		default:
+			return false
 		}
 	}
-	return false
+	return ones > 0 && zeros > 0
 }
 
 // sameExpr: structurally equal pure integer expressions.
